@@ -311,6 +311,14 @@ func (r *Receiver) watch(ctx context.Context) {
 // advertisement and where to retrieve it from.
 func (r *Receiver) Direct(ctx context.Context, nextCid cid.Cid, peerInfo peer.AddrInfo) error {
 	log.Infow("Handling direct announce", "peer", peerInfo.ID, "addrs", peerInfo.Addrs)
+	// An announcement says which publisher has the advertisement. Without a
+	// publisher ID there is nobody to sync from, and a republication could
+	// not name the original publisher: an empty original peer means "not
+	// republished", so other receivers would take this host for the
+	// publisher.
+	if err := peerInfo.ID.Validate(); err != nil {
+		return fmt.Errorf("announcement without publisher ID: %w", err)
+	}
 	amsg := Announce{
 		Cid:    nextCid,
 		PeerID: peerInfo.ID,
